@@ -231,7 +231,7 @@ def main(argv=None):
     ap.add_argument("--replay")
     a = ap.parse_args(argv)
     seed = int(os.environ.get("VERIF_SEED", "20260927"))
-    pid = a.pid.upper()
+    pid = a.pid.upper() if a.pid.lower() != "drift" else "drift"
     try:
         mod = importlib.import_module(f"harness.props.{pid.lower()}")
     except ImportError:
@@ -252,7 +252,8 @@ def main(argv=None):
                 mod.replay(ctx, doc)
         else:
             mod.run(ctx)
-            ctx.write_evidence(getattr(mod, "LEVEL", "model_checking"))
+            if pid != "drift":
+                ctx.write_evidence(getattr(mod, "LEVEL", "model_checking"))
     except tlc.MachineryError as e:
         print("MACHINERY FAILURE:", e)
         return 2
